@@ -117,6 +117,32 @@ Proof.
 Qed.
 
 (* ------------------------------------------------------------------ *)
+(* B'. how a Call card ends                                            *)
+(* ------------------------------------------------------------------ *)
+(* process_card (Call name args): whatever the arguments compile to, the last two instructions appended are
+   FunctionPointer (handle, arity of what resolve_function answers for `name` in the state s0 reached after the
+   arguments) and CallFunction, next to each other.  (That the rest of the compilation only prepends newer
+   instructions and patches operands of jumps - so that the pair is still adjacent in the returned program - is
+   not proved in this form; C08_call_resolves has the two adjacent in the call skeleton.) *)
+Lemma call_card_emits_pair : forall name args s s',
+  process_card (CCall name args) s = ROk tt s' ->
+  exists s0 m,
+    resolve_function name s0 = ROk m s0 /\
+    cs_code s' = ICallFunction :: IFunctionPointer (fm_handle m) (fm_arity m) :: cs_code s0 /\
+    cs_pc s' = cs_pc s0 + 9 + 1.
+Proof.
+  intros name args s s' H. cbn [process_card] in H. unfold bind at 1 in H.
+  destruct (card_label s) as [[] sa| | |]; try discriminate H.
+  unfold bind at 1 in H.
+  match type of H with match ?sub sa with _ => _ end = _ => destruct (sub sa) as [[] s0| | |]; try discriminate H end.
+  unfold bind at 1 in H.
+  destruct (resolve_function name s0) as [m s1| | |] eqn:Er; try discriminate H.
+  pose proof (resolve_function_state _ _ _ _ Er) as ->.
+  unfold bind in H. rewrite !push_instr_eq in H. injection H as <-.
+  exists s0, m. split; [exact Er|]. unfold pushed. cbn [cs_code cs_pc set_code set_trace]. split; reflexivity.
+Qed.
+
+(* ------------------------------------------------------------------ *)
 (* C. the call site of a compiled module                               *)
 (* ------------------------------------------------------------------ *)
 Lemma assoc_nm_find {V} k (l : list (N * V)) : Vm.assoc k l = nm_find k l.
